@@ -9,7 +9,7 @@ LEAN_MODULES = ["Econf.Props.C05"]
 THEOREMS = ["Econf.C05_step_inert", "Econf.C05_blank_inert", "Econf.C05_lines_inert", "Econf.C05_insert_comments"]
 RULE = ("conventional single-line-value documents x random insertion points x comment-line texts over the printable alphabet with "
         "comment characters, delimiters, quotes and brackets over-represented, with and without indentation, all comment sets; the file "
-        "is read with and without the inserted lines and the two results are compared; distinct by (document, inserted lines)")
+        "is read with and without the inserted lines and the two results are compared (in a third of the scenarios after an earlier read with other comment characters in the same process); distinct by (document, inserted lines)")
 
 NASTY = [b"old=1 # disabled", b"# heading", b" c", b"[section]", b"[broken", b"key value", b"k=v", b'"quoted', b"=", b"]", b"a=b # c ; d",
          b"", b" ", b"\t[x] y", b"#", b";", b"#;#;", b'k="v" # t']
@@ -42,6 +42,13 @@ def make(rng, sid):
                        "items": items, "with_c": with_c})
     s.file(b"/a.conf", a)
     s.file(b"/b.conf", b)
+    if rng.random() < 0.3:
+        # an earlier read in the same process with other comment and delimiter characters (handed over in the same buffers)
+        pc = rng.choice([c for c in docs.COMMENTS + [b"!", b"%#"] if c != comment])
+        s.file(b"/prior.conf", rng.choice([b"x=1\n! note\n", b"# c\nk v\n", b"; c\n[s]\nk=v ; t\n"]))
+        s.add("RF", 20, h(b"/prior.conf"), h(rng.choice([b"=", b" ", b":"])), h(pc))
+        s.add("FREE", 20)
+        s.meta["prior"] = True
     s.add("RF", 0, h(b"/a.conf"), h(delim), h(comment))
     s.add("RF", 1, h(b"/b.conf"), h(delim), h(comment))
     s.add("RAW", 0); s.add("DUMP", 0)
@@ -59,6 +66,8 @@ def oracle(s, lines):
     if "a" not in s.meta:
         return None
     rfs = [l for l in lines if l.startswith("rf ")]
+    if s.meta.get("prior"):
+        rfs = rfs[1:]
     if len(rfs) != 2 or rfs[0] != "rf E0 obj":
         return "conventional file not read: %r" % rfs
     if rfs[1] != "rf E0 obj":
